@@ -26,6 +26,18 @@ from vivarium.core.types import Processes, Topology, State, Steps, Flow
 from vivarium.core.serialize import QuantitySerializer
 
 _EMPTY_UPDATES = None, None, None, None, None, None
+
+
+def _set_schema_emit(schema, emit):
+    '''Set ``_emit`` in every variable configuration of a sub-schema.'''
+    if not isinstance(schema, dict):
+        return
+    if not schema or any(key in Store.schema_keys for key in schema):
+        # the configuration of a variable
+        schema['_emit'] = emit
+        return
+    for subschema in schema.values():
+        _set_schema_emit(subschema, emit)
 DEFAULT_SCHEMA = '_default'
 
 
@@ -648,7 +660,7 @@ class Store:
 
         # If emit is set on a branch node, set the entire branch to the
         # emit value.
-        if '_emit' in config and self.inner:
+        if '_emit' in config and (self.inner or self.subschema):
             emit_value = config.pop('_emit')
             self.set_emit_value(emit=emit_value)
 
@@ -1082,9 +1094,13 @@ class Store:
             assert isinstance(path, tuple), 'path must be a tuple'
             target = self.get_path(path)
             target.set_emit_value(emit=emit)
-        elif self.inner:
+        elif self.inner or self.subschema:
             for child in self.inner.values():
                 child.set_emit_value(emit=emit)
+            # children that are added to this branch later are built
+            # from the sub-schema: the flag covers them as well
+            if self.subschema:
+                _set_schema_emit(self.subschema, emit)
         else:
             self.emit = emit
 
